@@ -292,8 +292,16 @@ var float32Pool = []float32{0.5, 1.25, -3.75, 100, 0.1, 0.3, 1e10, 1e-7, 1677721
 
 func (v *Vals) next() int { v.ctr++; return v.ctr }
 
-func (v *Vals) str() string {
-	return v.Tag + string(rune('a'+v.Side)) + strconv.Itoa(v.next())
+// strSuffix: payloads that a builder must pass through verbatim (blanks, CR/LF, NUL and invalid UTF-8, quotes,
+// RESP-looking text, multi-byte runes, a long value). The recognisable head a<n>/b<n> stays in front.
+var strSuffix = []string{" x  y ", "\r\n", "\x00\xff", "\"'\\", "$-1", "*", "世界", strings.Repeat("z", 300), "{other}", "-0012", "1e3"}
+
+func (v *Vals) str(pick int) string {
+	s := v.Tag + string(rune('a'+v.Side)) + strconv.Itoa(v.next())
+	if pick < len(strSuffix) {
+		s += strSuffix[pick]
+	}
+	return s
 }
 
 func (v *Vals) i64(pick int) int64 {
@@ -387,7 +395,7 @@ func (v *Vals) scalar(t reflect.Type, method string) (reflect.Value, Expect) {
 	}
 	switch t.Kind() {
 	case reflect.String:
-		s := v.str()
+		s := v.str(pick)
 		return reflect.ValueOf(s).Convert(t), Expect{Text: s, Kind: "string"}
 	case reflect.Int64, reflect.Int:
 		x := v.i64(pick)
